@@ -91,19 +91,24 @@ def install(I):
 
     E["py.pow"] = py_pow
 
-    def np_minmax(is_min):
+    def np_minmax(is_min, numpy_result=True):
         def fn(I, args, kw):
             (xs,) = args
             if isinstance(xs, SymList):
                 if not I.truth(xs.length > 0, "np.min:nonempty"):
-                    I.raise_("ValueError", "zero-size array to reduction operation", site="np.min")
-                mk = ("np.min" if is_min else "np.max", id(xs))
+                    I.raise_("ValueError", "min/max of an empty sequence", site="min")
+                mk = ("min" if is_min else "max", numpy_result, id(xs))
                 if mk in I.ps.memo:
                     return I.ps.memo[mk]
                 r = I.ps.fresh("best", "Real")
-                rn = Num(r, (I.ps.fresh("bestf", "Bool"), True))
+                # the builtin returns the element itself (a Python number here); numpy converts it
+                rn = Num(r, (I.ps.fresh("bestf", "Bool"), numpy_result))
                 if xs.elem_pred is not None:
                     I.ps.assume(xs.elem_pred(I, rn))
+                    # extremal among the elements known to be in the list
+                    one = Num(z3.RealVal(1), (False, False))
+                    isone = xs.elem_pred(I, one)
+                    I.ps.assume(z3.Implies(isone, r <= 1 if is_min else r >= 1))
                 I.ps.memo[mk] = rn
                 return rn
             if isinstance(xs, ListObj):
@@ -126,6 +131,8 @@ def install(I):
 
     E["np.min"] = np_minmax(True)
     E["np.max"] = np_minmax(False)
+    E["py.min"] = np_minmax(True, numpy_result=False)
+    E["py.max"] = np_minmax(False, numpy_result=False)
 
     def np_sqrt(I, args, kw):
         (v,) = args
